@@ -9,7 +9,7 @@ NEEDS = ["acc_close_to_zero_abs_tol"]
 
 
 def streams():
-    return [A.BatStream(), A.PVStream(), A.BatAlgStream()]
+    return [A.BatStream(), A.PVStream(), A.BatAlgStream(), A.ConcPVStream(), A.ConcBatStream()]
 
 
 ASSUMPTIONS = [
@@ -18,6 +18,10 @@ ASSUMPTIONS = [
     "C15_bat_succeeded only (sum / sets / failed hold without it).",
     "Every addressed inverter is a key of _inv_bats_map with a non-empty battery set (how "
     "_get_battery_inverter_mappings builds the map); PV working components carry distinct ids (they come from a set).",
+    "No state is shared between requests in flight on one manager instance: each Result is modelled as a function "
+    "of its own request and the outcomes of its own calls; this is not proved about the code, it is tied by the "
+    "conc_pv / conc_battery streams (2-3 concurrent requests for disjoint component sets on ONE manager instance, "
+    "scripted reply latencies, every Result judged against its own request and compared with the model).",
     "asyncio: a task that has not finished when asyncio.wait times out is cancelled and its result() raises "
     "CancelledError; exercised on async_solipsism virtual time, not proved.",
 ]
@@ -37,7 +41,10 @@ META = {
                   "bound <= allocation <= 0, and a non-negligible negative excess implies every usable inverter got exactly its bound. The model is tied to the code by running the real managers on all 5^n outcome "
                   "vectors (n<=3 quick, n<=4 thorough) plus random cases (and set-points produced by the real distribution algorithm on C01-style component data) and comparing every Result field and every "
                   "set_power call exactly (rationals) inside Coq; the property is also judged directly on the Result "
-                  "objects vs the calls the fake client recorded.",
+                  "objects vs the calls the fake client recorded. Absence of cross-request state is tied by the "
+                  "concurrent streams: 2-3 requests for disjoint component subsets run concurrently (asyncio.gather) on one "
+                  "manager instance with per-component reply latencies (error-before-success, success-before-error, random, "
+                  "instant); every Result is matched to its request by identity and judged/compared on its own.",
     "level_note": "Battery set-points/remaining power are inputs (C01/C02 own the algorithm); the C01 identity is a "
                   "hypothesis of C15_bat_succeeded. PV model is the code after the F14 `fix:` commit; the pre-fix behaviour "
                   "is kept as pv_result_before_fix and refuted in a comment/Example only. When a PV manager has inverters "
